@@ -266,6 +266,12 @@ bufferevent_get_rlim_max_(struct bufferevent_private *bev, int is_write)
 			share = LIM(g->rate_limit) / g->n_members;
 			if (share < g->min_share)
 				share = g->min_share;
+			/* The group is not suspended, so it has budget left:
+			 * never hand out a share of 0 (min_share may be 0 and
+			 * the division rounds down), which callers would take
+			 * for EOF or spin on. */
+			if (share < 1)
+				share = 1;
 		}
 		UNLOCK_GROUP(g);
 		CLAMPTO(share);
